@@ -114,6 +114,8 @@ def run():
     nuni = len(cases)
     for i in range(2000 if QUICK else 120000):
         a = gen.random_abstract(rng, N=rng.randint(2, 8), K=rng.randint(1, 5), max_edges=14, nsites=3, nmuts=4)
+        if i % 3 == 2:       # node ids in no particular order (ids carry no meaning: parents with smaller ids than children, samples anywhere)
+            a = gen.permute_nodes(a, random.Random(SEED * 1000003 + i))
         cases.append(drive(a, rng))
     # scale: tree sequences that are already simplified, with hundreds of child intervals under several parents (the simplifier's
     # per-parent buffers roll over); simplify with every node a sample / all leaf samples must give the same tables back
